@@ -331,7 +331,11 @@ Record call := Call { c_plugin : str; c_cmd : list str; c_args : list str; c_thr
 (* finalEval of a proxy whose args are the strings [strs] (non-empty):
    the call that is logged (if a command method runs), whether the selected
    plugin is threaded, and the effect on the proxy chain *)
-Record finalres := FinalRes { fr_call : option (str * list str * list str); fr_threaded : bool; fr_res : sres }.
+Record finalres := FinalRes {
+  fr_call : option (str * list str * list str);
+  fr_threaded : bool;
+  fr_tag : bool;                   (* the command does msg.tag('ignored') before replying / noReply (Utilities.ignore) *)
+  fr_res : sres }.
 
 Record config := Config {
   k_maxnest : nat;                 (* supybot.commands.nested.maximum *)
@@ -351,7 +355,8 @@ Record mstate := MState {
   m_stack : list frame;            (* innermost proxy first *)
   m_log : list call;
   m_thr : bool;                    (* running in a CommandThread *)
-  m_room : nat                     (* budget left on the current Python stack *)
+  m_room : nat;                    (* budget left on the current Python stack *)
+  m_ign : bool                     (* msg.tags['ignored'] (one IrcMsg per command line, shared by all proxies) *)
 }.
 
 Inductive status : Type :=
@@ -362,7 +367,7 @@ Definition too_deep (nested : nat) : bool :=
   negb (Nat.eqb (k_maxnest K) 0) && (k_maxnest K <? nested)%nat.
 
 (* NestedCommandsIrcProxy.__init__(irc=parent chain, args, nested) *)
-Definition construct (stack : list frame) (log : list call) (thr : bool) (room : nat)
+Definition construct (stack : list frame) (log : list call) (thr : bool) (room : nat) (ign : bool)
            (args : list arg) (nested : nat) : status :=
   if too_deep nested then Done log OTooDeep
   else match room with
@@ -370,32 +375,38 @@ Definition construct (stack : list frame) (log : list call) (thr : bool) (room :
        | S room' =>
            match args with
            | [] => Done log (OInvalid [])
-           | _ => Running (MState (Frame [] args nested :: stack) log thr room')
+           | _ => Running (MState (Frame [] args nested :: stack) log thr room' ign)
            end
        end.
 
-(* parent.reply(s) / parent.noReply() on a non-final proxy; at the root: the real Irc *)
-Definition deliver (v : option str) (stack : list frame) (log : list call) (thr : bool) (room : nat) : status :=
+(* parent.reply(s) / parent.noReply() on a non-final proxy; at the root: the real Irc.
+   reply:   if msg.ignored: self.args.pop(self.counter); msg.tag('ignored', False)
+            else:           self.args[self.counter] = s
+            self.evalArgs()
+   noReply: self.args.pop(self.counter); msg.tag('ignored', False); self.evalArgs()
+   so the tag is clear again whenever the parent's evalArgs starts. *)
+Definition deliver (v : option str) (stack : list frame) (log : list call) (thr : bool) (room : nat) (ign : bool) : status :=
   match stack with
   | [] => Done log (match v with Some s => OReply s | None => ONone end)
   | p :: stack' =>
       let rest' := match v with
-                   | Some s => AStr s :: tl (f_rest p)       (* self.args[self.counter] = s *)
+                   | Some s => if ign then tl (f_rest p)     (* msg.ignored: the reply is dropped, the bracket popped *)
+                               else AStr s :: tl (f_rest p)  (* self.args[self.counter] = s *)
                    | None => tl (f_rest p)                   (* self.args.pop(self.counter) *)
                    end in
-      Running (MState (Frame (f_done p) rest' (f_nested p) :: stack') log thr room)
+      Running (MState (Frame (f_done p) rest' (f_nested p) :: stack') log thr room false)
   end.
 
-Definition apply_res (r : sres) (stack : list frame) (log : list call) (thr : bool) (room : nat) : status :=
+Definition apply_res (r : sres) (stack : list frame) (log : list call) (thr : bool) (room : nat) (ign : bool) : status :=
   match r with
   | SStop o => Done log o
-  | SVal v => deliver v stack log thr room
+  | SVal v => deliver v stack log thr room ign
   end.
 
 (* finalEval of the top proxy, its strings being [strs]; [stack] = the proxies above it *)
-Definition final_eval (strs : list str) (stack : list frame) (log : list call) (thr : bool) (room : nat) : status :=
+Definition final_eval (strs : list str) (stack : list frame) (log : list call) (thr : bool) (room : nat) (ign : bool) : status :=
   match strs with
-  | [] => apply_res (k_on_empty K) stack log thr room
+  | [] => apply_res (k_on_empty K) stack log thr room ign
   | _ =>
       let fr := final strs in
       let spawn := negb thr && fr_threaded fr in           (* world.isMainThread() and cb.threaded *)
@@ -405,7 +416,7 @@ Definition final_eval (strs : list str) (stack : list frame) (log : list call) (
                   | Some (p, c, a) => log ++ [Call p c a thr']
                   | None => log
                   end in
-      apply_res (fr_res fr) stack log' thr' room'
+      apply_res (fr_res fr) stack log' thr' room' (ign || fr_tag fr)   (* msg.tag('ignored') *)
   end.
 
 (* the while loop of evalArgs over args[counter:] *)
@@ -423,9 +434,9 @@ Definition eval_args (st : mstate) : status :=
       let '(done, rest) := scan (f_done f) (f_rest f) in
       match rest with
       | ASub sub :: _ =>
-          construct (Frame done rest (f_nested f) :: stack) (m_log st) (m_thr st) (m_room st)
+          construct (Frame done rest (f_nested f) :: stack) (m_log st) (m_thr st) (m_room st) (m_ign st)
                     sub (S (f_nested f))
-      | _ => final_eval done stack (m_log st) (m_thr st) (m_room st)
+      | _ => final_eval done stack (m_log st) (m_thr st) (m_room st) (m_ign st)
       end
   end.
 
@@ -453,14 +464,22 @@ Definition stack_holds_domain : Prop := (gen.T14.STACK_SAFE_SUBS < k_budget K)%n
 
 (* Owner.doPrivmsg: self.Proxy(irc, msg, tokens) *)
 Definition machine (tokens : list arg) : status :=
-  runm (2 * subs tokens + 2) (construct [] [] false (k_budget K) tokens O).
+  runm (2 * subs tokens + 2) (construct [] [] false (k_budget K) false tokens O).
 
 (* ---- the functional specification: post-order, left to right, stop at the first stop ---- *)
 Definition opt_list (v : option str) : list str := match v with Some s => [s] | None => [] end.
 
 Definition entry := (str * list str * list str)%type.
 
-Definition finish (d : nat) (sub : list arg) (r : list entry * (outcome + list str)) : list entry * sres :=
+(* what the proxy chain above gets from a command: a sub-command that tagged the message 'ignored'
+   contributes nothing, whether it then replied or not; at the root the reply is sent as it is *)
+Definition res_of (child : bool) (fr : finalres) : sres :=
+  match fr_res fr with
+  | SVal v => SVal (if child && fr_tag fr then None else v)
+  | SStop o => SStop o
+  end.
+
+Definition finish (child : bool) (d : nat) (sub : list arg) (r : list entry * (outcome + list str)) : list entry * sres :=
   if too_deep d then ([], SStop OTooDeep)
   else match sub with
        | [] => ([], SStop (OInvalid []))
@@ -470,7 +489,7 @@ Definition finish (d : nat) (sub : list arg) (r : list entry * (outcome + list s
            | (lg, inr []) => (lg, k_on_empty K)
            | (lg, inr strs) =>
                let fr := final strs in
-               (lg ++ match fr_call fr with Some e => [e] | None => [] end, fr_res fr)
+               (lg ++ match fr_call fr with Some e => [e] | None => [] end, res_of child fr)
            end
        end.
 
@@ -495,13 +514,13 @@ Definition spec_list_with (f : arg -> list entry * sres) : list arg -> list entr
 Fixpoint spec_arg (d : nat) (a : arg) {struct a} : list entry * sres :=
   match a with
   | AStr s => ([], SVal (Some s))
-  | ASub sub => finish (S d) sub (spec_list_with (fun x => spec_arg (S d) x) sub)
+  | ASub sub => finish true (S d) sub (spec_list_with (fun x => spec_arg (S d) x) sub)
   end.
 
 Definition spec_list (d : nat) (l : list arg) := spec_list_with (fun x => spec_arg d x) l.
 
 Definition eval_spec (tokens : list arg) : list entry * outcome :=
-  match finish O tokens (spec_list O tokens) with
+  match finish false O tokens (spec_list O tokens) with
   | (lg, SStop o) => (lg, o)
   | (lg, SVal (Some s)) => (lg, OReply s)
   | (lg, SVal None) => (lg, ONone)
@@ -509,7 +528,7 @@ Definition eval_spec (tokens : list arg) : list entry * outcome :=
 End Machine.
 
 (* ---- synthetic command behaviours (the harness generates plugins from the same description) ---- *)
-Inductive kind := KReply | KEcho | KSilent | KMute | KErr | KCrash | KForeign.
+Inductive kind := KReply | KEcho | KSilent | KMute | KErr | KCrash | KForeign | KIgnore.
 
 Record behs := Behs {
   b_table : list (str * str * str * kind);   (* plugin name, sub-callback name or [], method -> kind *)
@@ -534,11 +553,11 @@ Definition crash_res (B : behs) (exn_text : str) : sres :=
 Definition final_of (E : env) (B : behs) (strs : list str) : finalres :=
   let '(command, cbs) := findCallbacksForArgs E strs in
   match cbs with
-  | [] => FinalRes None false (SStop (OInvalid strs))
+  | [] => FinalRes None false false (SStop (OInvalid strs))
   | [cb] =>
       let args := skipn (length command) strs in
       match p_resolve cb command with
-      | None => FinalRes None false (SStop OForeign)
+      | None => FinalRes None false false (SStop OForeign)
       | Some (g, m) =>
           let owner := match g with [] => p_name cb | _ => p_name cb ++ [DOT] ++ g end in
           let r := match kind_of B (p_name cb) g m with
@@ -549,10 +568,12 @@ Definition final_of (E : env) (B : behs) (strs : list str) : finalres :=
                    | KErr => SStop (OError (E_DASH ++ m))
                    | KCrash => crash_res B (VALUEERROR ++ m)
                    | KForeign => SStop OForeign
+                   | KIgnore => SVal None                                  (* msg.tag('ignored'); irc.noReply() *)
                    end in
-          FinalRes (Some (p_name cb, command, args)) (p_threaded cb) r
+          FinalRes (Some (p_name cb, command, args)) (p_threaded cb)
+                   (match kind_of B (p_name cb) g m with KIgnore => true | _ => false end) r
       end
-  | _ => FinalRes None false (SStop (OAmbiguous command (map p_name cbs)))
+  | _ => FinalRes None false false (SStop (OAmbiguous command (map p_name cbs)))
   end.
 
 (* ---- wire ---- *)
@@ -576,7 +597,7 @@ Definition gGroup (v : value) : group := Group (gS (nth_v 0 v)) (gLS (nth_v 1 v)
 Definition gPlug (v : value) : plug :=
   Plug (gS (nth_v 0 v)) (gLS (nth_v 1 v)) (map gGroup (gL (nth_v 2 v))) (gB (nth_v 3 v)).
 Definition gKind (v : value) : kind :=
-  match gN v with 0 => KReply | 1 => KEcho | 2 => KSilent | 3 => KMute | 4 => KErr | 5 => KCrash | _ => KForeign end.
+  match gN v with 0 => KReply | 1 => KEcho | 2 => KSilent | 3 => KMute | 4 => KErr | 5 => KCrash | 7 => KIgnore | _ => KForeign end.
 
 (* env: (plugins, disable-ops [(command, () | (plugin))], extra defaults [(command, plugin)], important) *)
 Definition gEnv (v : value) : env :=
